@@ -94,7 +94,7 @@ pub fn conv_run(imp: &str, rt: &tokio::runtime::Runtime, fr: &Frames, idx: &RepI
         for op in ops {
             match op {
                 UOp::Read => { let r = guard(|| rt.block_on(async { f.read().await })); let w = t.take_written(); if !w.is_empty() { trace.push(format!("W{}", hex(&w))); } if conv_tokens(r, idx, &mut trace) { break; } },
-                UOp::Write(p) => { let r = guard(|| rt.block_on(async { f.write(p.clone()).await })); let w = t.take_written(); trace.push(match r { Some(Ok(())) => format!("U{}", hex(&w)), Some(Err(e)) => format!("UERR:{:?}:{}", e, hex(&w)), None => "UPANIC".into() }); },
+                UOp::Write(p) => { t.0.lock().unwrap().slow = true; let r = guard(|| rt.block_on(async { f.write(p.clone()).await })); t.0.lock().unwrap().slow = false; let w = t.take_written(); trace.push(match r { Some(Ok(())) => format!("U{}", hex(&w)), Some(Err(e)) => format!("UERR:{:?}:{}", e, hex(&w)), None => "UPANIC".into() }); },
                 UOp::Handshake(i) => { let r = guard(|| rt.block_on(async { f.handshake(i.clone(), Duration::from_secs(5)).await })); let w = t.take_written(); trace.push(match r { Some(Ok(())) => format!("U{}", hex(&w)), Some(Err(e)) => format!("UERR:{:?}:{}", e, hex(&w)), None => "UPANIC".into() }); },
                 UOp::Refused(_, p) => { let r = guard(|| rt.block_on(async { f.write(p.clone()).await })); let w = t.take_written(); match r { Some(Err(_)) if w.is_empty() => {}, Some(Err(_)) => trace.push(format!("XBYTES{}", hex(&w))), Some(Ok(())) => trace.push(format!("XOK{}", hex(&w))), None => if !w.is_empty() { trace.push(format!("XBYTES{}", hex(&w))) } } },   // a panic is a loud refusal too (C03: packets too large for the mode)
             }
@@ -246,7 +246,10 @@ pub fn aconv_run(rt: &tokio::runtime::Runtime, fr: &Frames, idx: &RepIndex, veri
             if !entry.is_empty() {
                 if after == Some(true) { let w = t.take_written(); if !w.is_empty() { trace.push(format!("W{}", hex(&w))); } }
                 for op in entry {
+                    // the caller's own write() waits as long as it takes: its not-ready turns last an hour each (paused clock)
+                    t.0.lock().unwrap().slow = matches!(op, UOp::Write(_));
                     let r = match op { UOp::Write(p) => f.write(p.clone()).await, UOp::Handshake(i) => f.handshake(i.clone(), Duration::from_secs(5)).await, UOp::Read | UOp::Refused(..) => Ok(()) };
+                    t.0.lock().unwrap().slow = false;
                     let w = t.take_written();
                     match r { Ok(()) => trace.push(format!("U{}", hex(&w))), Err(e) => { trace.push(format!("UERR:{:?}:{}", e, hex(&w))); break 'outer; } }
                 }
